@@ -78,8 +78,15 @@ type state struct {
 	tokens  map[string]*T // abstract state tokens by interface/type key
 	ghost   map[string]*T
 	pc      []*T
-	nextRef int64 // next fresh (negative) reference is -(nextRef+1)
+	low *T // lowest reference allocated so far (fresh references are low-1, low-2, ...); initially 0
 	assumed []string // names of axioms / external contracts assumed on this path
+}
+
+func (s *state) lowRef() *T {
+	if s.low == nil {
+		return refConst(0)
+	}
+	return s.low
 }
 
 func newState() *state {
@@ -88,7 +95,7 @@ func newState() *state {
 
 func (s *state) clone() *state {
 	n := &state{cells: make(map[*Cell]Val, len(s.cells)), heaps: make(map[string]*T, len(s.heaps)), arrs: make(map[string]*T, len(s.arrs)),
-		tokens: make(map[string]*T, len(s.tokens)), ghost: make(map[string]*T, len(s.ghost)), nextRef: s.nextRef}
+		tokens: make(map[string]*T, len(s.tokens)), ghost: make(map[string]*T, len(s.ghost)), low: s.low}
 	for k, v := range s.cells {
 		n.cells[k] = v
 	}
@@ -214,8 +221,22 @@ func (c *ctx) name(st *state, prefix string, t *T) *T {
 }
 
 func (c *ctx) freshRef(st *state) *T {
-	st.nextRef++
-	return refConst(-st.nextRef)
+	if st.low == nil {
+		st.low = refConst(0)
+	}
+	if v, ok := numeralValue(st.low); ok && v.IsInt64() {
+		st.low = refConst(v.Int64() - 1)
+	} else {
+		// symbolic allocation base (inside a loop body): base - k
+		base, k := st.low, int64(0)
+		if st.low.op == "-" && len(st.low.args) == 2 {
+			if kv, ok := numeralValue(st.low.args[1]); ok {
+				base, k = st.low.args[0], kv.Int64()
+			}
+		}
+		st.low = app("-", "Int", base, refConst(k+1))
+	}
+	return st.low
 }
 
 // loadRoot reads the root object of a pointer
